@@ -1089,7 +1089,12 @@ pub mod verif {
       }
       streams.sort_by(|a, b| a.0.cmp(&b.0));
       Ok(Router {
-        processor: EventProcessor::new(actors, None),
+        processor: EventProcessor::new(actors, None).with_loggers(
+          config
+            .loggers
+            .values()
+            .map(|l| (l.name.clone(), l.additive)),
+        ),
         streams,
       })
     }
